@@ -49,6 +49,16 @@ class WalkerModel:
             raise AnalysisError(f'{WALKER_FILE}: function {WALKER} not found')
         self.fn = fn
         self.file = WALKER_FILE
+        # module-level `NAME = (ast.A, ast.B, ...)` assigned once: class tuples used by isinstance tests
+        self.class_tuples = {}
+        stored = {}
+        for x in ast.walk(tree):
+            if isinstance(x, ast.Name) and isinstance(x.ctx, (ast.Store, ast.Del)):
+                stored[x.id] = stored.get(x.id, 0) + 1
+        for st in tree.body:
+            if isinstance(st, ast.Assign) and len(st.targets) == 1 and isinstance(st.targets[0], ast.Name) and isinstance(st.value, ast.Tuple) and st.value.elts \
+                    and all(dotted(e) is not None for e in st.value.elts) and stored.get(st.targets[0].id) == 1:
+                self.class_tuples[st.targets[0].id] = st.value
         self.params = [a.arg for a in fn.args.args]
         if len(self.params) < 2:
             raise AnalysisError('query_traversal: unexpected signature')
@@ -100,6 +110,8 @@ class WalkerModel:
         if isinstance(t, ast.Call) and dotted(t.func) == 'isinstance' and len(t.args) == 2 \
                 and isinstance(t.args[0], ast.Name) and t.args[0].id == self.node:
             a = t.args[1]
+            if isinstance(a, ast.Name) and a.id in getattr(self, 'class_tuples', {}):
+                a = self.class_tuples[a.id]         # a module-level constant tuple of classes
             elts = a.elts if isinstance(a, ast.Tuple) else [a]
             out = []
             for e in elts:
@@ -371,6 +383,42 @@ def _assigned_names(fn):
     return out
 
 
+def _structure_continue(stmts):
+    """the body of one (unrolled) loop iteration without `continue`: what follows `if c: continue` moves under `else`"""
+    def always_continues(block):
+        for x in block:
+            if isinstance(x, ast.Continue):
+                return True
+            if isinstance(x, ast.If) and x.orelse and always_continues(x.body) and always_continues(x.orelse):
+                return True
+        return False
+
+    def conv(block):
+        res = []
+        for i, x in enumerate(block):
+            if isinstance(x, ast.Continue):
+                return res
+            if isinstance(x, ast.If):
+                cb, ce = always_continues(x.body), bool(x.orelse) and always_continues(x.orelse)
+                body, orelse = conv(x.body), conv(x.orelse)
+                if cb and not ce:
+                    res.append(ast.If(test=x.test, body=body or [ast.Pass()], orelse=orelse + conv(block[i + 1:])))
+                    return res
+                if ce and not cb:
+                    res.append(ast.If(test=x.test, body=body + conv(block[i + 1:]), orelse=orelse))
+                    return res
+                res.append(ast.If(test=x.test, body=body or [ast.Pass()], orelse=orelse))
+                if cb and ce:
+                    return res
+                continue
+            res.append(x)
+        return res
+    out = conv(stmts)
+    for x in out:
+        ast.fix_missing_locations(x)
+    return out
+
+
 class Normalizer:
     def __init__(self, module_tree, walker_name):
         self.helpers = {}
@@ -545,10 +593,11 @@ class Normalizer:
             st.iter = self.const_seqs[st.iter.id]
         if isinstance(st, ast.For) and isinstance(st.iter, (ast.Tuple, ast.List)) and st.iter.elts and \
                 all(isinstance(e, ast.Constant) for e in st.iter.elts) and isinstance(st.target, ast.Name) and not st.orelse \
-                and not any(isinstance(x, (ast.Break, ast.Continue)) for x in ast.walk(st)):
+                and not any(isinstance(x, ast.Break) for x in ast.walk(st)) \
+                and not any(isinstance(x, ast.Continue) for inner in ast.walk(st) if isinstance(inner, (ast.For, ast.While)) and inner is not st for x in ast.walk(inner)):
             out = []
             for e in st.iter.elts:
-                body = clone(st.body)
+                body = _structure_continue(clone(st.body))
                 body = [_Subst({st.target.id: e}).visit(b) for b in body]
                 out.extend(self.block(body))
             return out
